@@ -3699,6 +3699,49 @@ pub proof fn lemma_written_w6(o1: Outbound, o0: Outbound, p: FlushedPacket, writ
     assert(ids_of(o1) =~= ids_of(o0));
 }
 
+/// nothing of the session's own queues is half-way on the wire
+pub open spec fn no_in_progress(o: Outbound) -> bool { step_for(o, true) is None }
+
+/// retained and release lists carry the same packets (ids, lengths, reasons, order) — only send
+/// states, arena offsets and the DUP bit may differ.  Stated as equality of derived sequences so that
+/// it is transitive for free.
+pub open spec fn ret_sig(r: Seq<RetainedPacket>) -> Seq<(u16, usize)> { Seq::new(r.len(), |i: int| (r[i].packet_id, r[i].len)) }
+pub open spec fn rel_sig(l: Seq<PendingRelease>) -> Seq<(u16, ReasonCode)> { Seq::new(l.len(), |i: int| (l[i].packet_id, l[i].reason)) }
+pub open spec fn same_inflight(o1: Outbound, o0: Outbound) -> bool {
+    ret_sig(o1.retained@) == ret_sig(o0.retained@) && rel_sig(o1.pending_release@) == rel_sig(o0.pending_release@)
+}
+pub proof fn lemma_inflight_refl(o: Outbound) ensures same_inflight(o, o) {}
+pub proof fn lemma_inflight_trans(o2: Outbound, o1: Outbound, o0: Outbound)
+    requires same_inflight(o2, o1), same_inflight(o1, o0) ensures same_inflight(o2, o0)
+{}
+pub proof fn lemma_inflight_written(o1: Outbound, o0: Outbound, p: FlushedPacket, written: usize, len: usize)
+    requires written_upd(o1, o0, p, written, len), flushed_tracked(o0, p) ensures same_inflight(o1, o0)
+{
+    lemma_first_ret_bounds(o0.retained@, match p { FlushedPacket::Retained(id) => id, _ => 0 });
+    lemma_first_rel_bounds(o0.pending_release@, match p { FlushedPacket::Release(id) => id, _ => 0 });
+    assert(ret_sig(o1.retained@) =~= ret_sig(o0.retained@));
+    assert(rel_sig(o1.pending_release@) =~= rel_sig(o0.pending_release@));
+}
+pub proof fn lemma_inflight_flushed(o1: Outbound, o0: Outbound, p: FlushedPacket)
+    requires flushed_upd(o1, o0, p), flushed_tracked(o0, p) ensures same_inflight(o1, o0)
+{
+    lemma_first_ret_bounds(o0.retained@, match p { FlushedPacket::Retained(id) => id, _ => 0 });
+    lemma_first_rel_bounds(o0.pending_release@, match p { FlushedPacket::Release(id) => id, _ => 0 });
+    assert(ret_sig(o1.retained@) =~= ret_sig(o0.retained@));
+    assert(rel_sig(o1.pending_release@) =~= rel_sig(o0.pending_release@));
+}
+pub proof fn lemma_inflight_armed(o1: Outbound, o0: Outbound)
+    requires armed(o1, o0) ensures same_inflight(o1, o0)
+{
+    assert forall|i: int| 0 <= i < o0.retained@.len() implies ret_sig(o1.retained@)[i] == ret_sig(o0.retained@)[i] by {
+        assert(o1.retained@[i] == fresh_ret(o0.retained@[i]));
+    }
+    assert forall|i: int| 0 <= i < o0.pending_release@.len() implies rel_sig(o1.pending_release@)[i] == rel_sig(o0.pending_release@)[i] by {
+        assert(o1.pending_release@[i] == fresh_rel(o0.pending_release@[i]));
+    }
+    assert(ret_sig(o1.retained@) =~= ret_sig(o0.retained@));
+    assert(rel_sig(o1.pending_release@) =~= rel_sig(o0.pending_release@));
+}
 pub open spec fn reader_same(a: PacketReader, b: PacketReader) -> bool {
     a.read_bytes == b.read_bytes && a.packet_length == b.packet_length && rbuf(a) == rbuf(b)
 }
@@ -3958,11 +4001,15 @@ fn handle_disconnect(&mut self)
             && cs(*final(self)).runtime.keepalive_interval == cs(*old(self)).runtime.keepalive_interval
             && sd_frame(cs(*final(self)).data, cs(*old(self)).data)
             && cs(*final(self)).data.pending_server_packet_ids@ == cs(*old(self)).data.pending_server_packet_ids@,
+        same_inflight(cs(*final(self)).data.outbound, cs(*old(self)).data.outbound),
         rt_ok(cs(*old(self)).runtime) ==> conn_inv(*final(self)),
 {
         self.live = false;
         self.session.handle_disconnect();
-    }
+    
+        proof { lemma_inflight_armed(cs(*self).data.outbound, cs(*old(self)).data.outbound); }
+
+}
 
 fn set_written(&mut self, packet: FlushedPacket, written: usize, len: usize)
     requires
@@ -4050,6 +4097,7 @@ async fn flush_current(
             && cs(*final(self)).runtime.ping_timeout == (if packet matches FlushedPacket::Control(ControlAction::PingReq)
                 { Some(instant_plus(now, Duration { t: Ghost((ROUND_TRIP_TIMEOUT_MS * 1000) as nat) })) } else { cs(*old(self)).runtime.ping_timeout }),
         (old(self).live && r is Err) ==> armed(cs(*final(self)).data.outbound, cs(*old(self)).data.outbound),
+        same_inflight(cs(*final(self)).data.outbound, cs(*old(self)).data.outbound) && cs(*final(self)).runtime.send_quota == cs(*old(self)).runtime.send_quota,
         sd_frame(cs(*final(self)).data, cs(*old(self)).data)
             && cs(*final(self)).data.pending_server_packet_ids@ == cs(*old(self)).data.pending_server_packet_ids@
             && final(self).event == old(self).event,
@@ -4061,9 +4109,13 @@ async fn flush_current(
         if let Err(err) = self.io.flush().await {
 
             self.handle_disconnect();
+            proof { lemma_inflight_armed(cs(*self).data.outbound, cs(*old(self)).data.outbound); }
+
             return Err(Error::Transport(err));
         }
         self.complete_flush(packet, now);
+        proof { lemma_inflight_flushed(cs(*self).data.outbound, cs(*old(self)).data.outbound, packet); }
+
         Ok(())
     }
 
@@ -4103,6 +4155,7 @@ async fn perform_outbound_step(
         sd_frame(cs(*final(self)).data, cs(*old(self)).data)
             && cs(*final(self)).data.pending_server_packet_ids@ == cs(*old(self)).data.pending_server_packet_ids@
             && final(self).event == old(self).event && final(self).io.inbound@ == old(self).io.inbound@,
+        same_inflight(cs(*final(self)).data.outbound, cs(*old(self)).data.outbound) && cs(*final(self)).runtime.send_quota == cs(*old(self)).runtime.send_quota,
         conn_inv(*final(self)),
 {
         proof { lemma_step_tracked(cs(*self).data.outbound, step); }
@@ -4198,6 +4251,8 @@ async fn perform_outbound_step(
             Err(Error::Transport(err)) => {
 
                 self.handle_disconnect();
+                proof { lemma_inflight_armed(cs(*self).data.outbound, o0); }
+
                 return Err(Error::Transport(err));
             }
             Err(err) => return Err(err),
@@ -4205,13 +4260,13 @@ async fn perform_outbound_step(
         let written = written + count;
         self.set_written(packet, written, len);
         let ghost o1 = cs(*self).data.outbound;
-        proof { lemma_written_then_flushed(o1, o1, o0, packet, written, len); }
+        proof { lemma_written_then_flushed(o1, o1, o0, packet, written, len); lemma_inflight_written(o1, o0, packet, written, len); }
 
         if written < len {
             return Ok(true);
         }
         (match self.flush_current(packet, now).await { Ok(__v) => __v, Err(__e) => return Err(From::from(__e)) });
-        proof { lemma_written_then_flushed(cs(*self).data.outbound, o1, o0, packet, written, len); }
+        proof { lemma_written_then_flushed(cs(*self).data.outbound, o1, o0, packet, written, len); lemma_inflight_trans(cs(*self).data.outbound, o1, o0); }
 
         Ok(true)
     }
@@ -4274,6 +4329,7 @@ async fn service_outbound_once(&mut self, now: Instant) -> (r: Result<bool, Erro
         sd_frame(cs(*final(self)).data, cs(*old(self)).data)
             && cs(*final(self)).data.pending_server_packet_ids@ == cs(*old(self)).data.pending_server_packet_ids@
             && final(self).event == old(self).event && final(self).io.inbound@ == old(self).io.inbound@,
+        same_inflight(cs(*final(self)).data.outbound, cs(*old(self)).data.outbound) && cs(*final(self)).runtime.send_quota == cs(*old(self)).runtime.send_quota,
         conn_inv(*final(self)),
 {
         (match self.maybe_queue_pingreq(now) { Ok(__v) => __v, Err(__e) => return Err(From::from(__e)) });
@@ -4298,6 +4354,7 @@ async fn service(&mut self, now: Instant) -> (r: Result<bool, Error<IoErr>>)
         sd_frame(cs(*final(self)).data, cs(*old(self)).data)
             && cs(*final(self)).data.pending_server_packet_ids@ == cs(*old(self)).data.pending_server_packet_ids@
             && final(self).event == old(self).event && final(self).io.inbound@ == old(self).io.inbound@,
+        same_inflight(cs(*final(self)).data.outbound, cs(*old(self)).data.outbound) && cs(*final(self)).runtime.send_quota == cs(*old(self)).runtime.send_quota,
         conn_inv(*final(self)),
 {
         let runtime = &mut self.session.runtime;
@@ -4448,6 +4505,7 @@ async fn flush_outbound(&mut self) -> (r: Result<(), Error<IoErr>>)
             && cs(*final(self)).data.pending_server_packet_ids@ == cs(*old(self)).data.pending_server_packet_ids@
             && final(self).event == old(self).event && final(self).io.inbound@ == old(self).io.inbound@
             && reader_same(cs(*final(self)).packet_reader, cs(*old(self)).packet_reader) || !final(self).live,
+        same_inflight(cs(*final(self)).data.outbound, cs(*old(self)).data.outbound) && cs(*final(self)).runtime.send_quota == cs(*old(self)).runtime.send_quota,
         conn_inv(*final(self)),
 {
         loop 
@@ -4460,6 +4518,8 @@ async fn flush_outbound(&mut self) -> (r: Result<(), Error<IoErr>>)
                 cs(*self).data.pending_server_packet_ids@ == cs(*old(self)).data.pending_server_packet_ids@,
                 self.event == old(self).event, self.io.inbound@ == old(self).io.inbound@,
                 reader_same(cs(*self).packet_reader, cs(*old(self)).packet_reader),
+                same_inflight(cs(*self).data.outbound, cs(*old(self)).data.outbound),
+                cs(*self).runtime.send_quota == cs(*old(self)).runtime.send_quota,
 {
             (match self.maybe_queue_pingreq(Instant::now()) { Ok(__v) => __v, Err(__e) => return Err(From::from(__e)) });
             let Some(step) = self.session.data.outbound.next_step() else {
@@ -4926,20 +4986,6 @@ where
     (match write_all(connection, bytes).await { Ok(__v) => __v, Err(__e) => return Err(From::from(__e)) });
     (match (match connection.flush().await { Ok(__v) => Ok(__v), Err(__e) => Err(Error::Transport(__e)) }) { Ok(__v) => __v, Err(__e) => return Err(From::from(__e)) });
     Ok(())
-}
-
-/// nothing of the session's own queues is half-way on the wire
-pub open spec fn no_in_progress(o: Outbound) -> bool { step_for(o, true) is None }
-
-/// retained and release lists carry the same packets (ids, arena places) — only send states and the
-/// DUP bit may differ
-pub open spec fn same_inflight(o1: Outbound, o0: Outbound) -> bool {
-    &&& o1.retained@.len() == o0.retained@.len()
-    &&& forall|i: int| 0 <= i < o0.retained@.len() ==> (#[trigger] o1.retained@[i]).packet_id == o0.retained@[i].packet_id
-            && o1.retained@[i].len == o0.retained@[i].len
-    &&& o1.pending_release@.len() == o0.pending_release@.len()
-    &&& forall|i: int| 0 <= i < o0.pending_release@.len() ==> (#[trigger] o1.pending_release@[i]).packet_id == o0.pending_release@[i].packet_id
-            && o1.pending_release@[i].reason == o0.pending_release@[i].reason
 }
 
 impl<'a, 'buf> Connection<'a, 'buf> {
